@@ -113,10 +113,10 @@ retry:
 		var ml []Completed
 	recover:
 		ml = ml[:0]
-		var txIdx int // check transaction block, if zero, then not in transaction
+		txIdx := -1 // index of the MULTI of the transaction block being scanned, -1 if not in a transaction
 		for i, resp := range resps.s {
 			if resp.NonRedisError() == errConnExpired {
-				if txIdx > 0 {
+				if txIdx >= 0 {
 					ml = multi[txIdx:]
 				} else {
 					ml = multi[i:]
@@ -127,7 +127,7 @@ retry:
 			if isMulti(multi[i]) {
 				txIdx = i
 			} else if isExec(multi[i]) {
-				txIdx = 0
+				txIdx = -1
 			}
 		}
 		if len(ml) > 0 {
